@@ -616,9 +616,9 @@ theorem primaryKey_norm (p : Property) : (normField p).primaryKey = p.primaryKey
     | some e => obtain ⟨t, tk⟩ := e; cases t <;> try rfl
                 rename_i b; cases b <;> rfl
 
-theorem j5Accepts_norm (M : Matcher) (hM : ∀ x, M.run id62Pattern x = id62Shape x) (p : Property)
-    (hne : p.schema.item.isEnum = false) (v : FieldVal) :
-    j5Accepts M (normField p) v = j5Accepts M p v := by
+theorem j5Accepts_norm (M : Matcher) (hM : ∀ x, M.run id62Pattern x = id62Shape x) (optPres : Bool)
+    (p : Property) (hne : p.schema.item.isEnum = false) (v : FieldVal) :
+    j5Accepts M optPres (normField p) v = j5Accepts M optPres p v := by
   have hpk := primaryKey_norm p
   obtain ⟨name, num, req, opt, desc, schema⟩ := p
   have hreq : (normField ⟨name, num, req, opt, desc, schema⟩).effRequired =
